@@ -338,8 +338,38 @@ fn word_ops(w: u16, n: usize) -> Vec<BitOp> {
     (0..n).map(|i| BitOp::Bit((w >> i) & 1 != 0)).collect()
 }
 
+/// U1^i U2^j probe: units are whole frames (valid / rejected) and abandoned partial frames +
+/// clear(); (i, j) in {(1100,1100), (2200,1100), (1100,2200)}
+pub fn long_unit_grammar() -> Vec<Vec<BitOp>> {
+    let x = frame::encode(0x1C);
+    let units: Vec<Vec<BitOp>> = vec![
+        vec![BitOp::Bit(false), BitOp::Clear],
+        vec![BitOp::Bit(true), BitOp::Clear],
+        { let mut v = word_ops(x, 5); v.push(BitOp::Clear); v },
+        word_ops(x, 11),
+        word_ops(x ^ 0x200, 11),
+        word_ops(0x7FF, 11),
+    ];
+    let mut out = Vec::new();
+    for a in &units {
+        for b in &units {
+            for (i, j) in [(1100usize, 1100usize), (2200, 1100), (1100, 2200)] {
+                let mut v: Vec<BitOp> = Vec::with_capacity(i * a.len() + j * b.len() + 44);
+                for _ in 0..i { v.extend(a.iter().copied()); }
+                for _ in 0..j { v.extend(b.iter().copied()); }
+                v.extend(word_ops(x | 1, 11));
+                v.extend(word_ops(x, 11));
+                v.extend(word_ops(x ^ 0x004, 11));
+                v.extend(word_ops(x, 11));
+                out.push(v);
+            }
+        }
+    }
+    out
+}
+
 pub fn c06(run: &mut Run) {
-    run.rule = "Exhaustive: (a) every partial prefix of 0-10 bits (2047 shift-register states, each reached by feeding the prefix to a fresh decoder) x next bit: 'incomplete' until the 11th bit, then the whole-word model's verdict; (b) all 2048 x 2048 ordered frame pairs bit by bit on a fresh decoder: both results must equal whole-word decoding whatever the first frame was; (c) every partial state -> clear() -> every frame. State exploration: BFS over {bit 0, bit 1, clear()} with states named by Ps2Decoder's Debug rendering. Repeat-then-perturb: a frame repeated 1-6 times (typematic repeat), then optionally an abandoned partial frame + clear(), then the same frame / each single-bit corruption / another frame. Pumping: frames and partial-frame+clear() patterns repeated for >= 80,000 bits. Random: chunked bit streams (valid frames, bursts of rejected frames, 1-2 flipped bits, random 11 bits, partial frame + clear(), clear() at a boundary, random runs) against the bit-serial model through Ps2Decoder and through Keyboard::add_bit/clear. Non-trivial = pair with exactly one of the two frames rejected; clear() with >= 1 pending bit followed by a frame; random stream containing a rejected frame followed by an accepted one or a clear() with pending bits. Exhaustive cases are distinct by construction, random ones by op-string fingerprint.".into();
+    run.rule = "Exhaustive: (a) every partial prefix of 0-10 bits (2047 shift-register states, each reached by feeding the prefix to a fresh decoder) x next bit: 'incomplete' until the 11th bit, then the whole-word model's verdict; (b) all 2048 x 2048 ordered frame pairs bit by bit on a fresh decoder: both results must equal whole-word decoding whatever the first frame was; (c) every partial state -> clear() -> every frame. State exploration: BFS over {bit 0, bit 1, clear()} with states named by Ps2Decoder's Debug rendering. Repeat-then-perturb: a frame repeated 1-6 times (typematic repeat), then optionally an abandoned partial frame + clear(), then the same frame / each single-bit corruption / another frame. Deep-history families: a frame held for 255/256/300 repeats, 1-16 rejected frames, the frame again, then each single-bit corruption; noisy-line workloads (6000 frames of typing traffic with 0-33% corrupted frames and 0-10% abandoned partial frames + clear(), with bad-start/bad-stop probes at every 1024-frame boundary). Pumping: frames and partial-frame+clear() patterns repeated for >= 80,000 bits. Random: chunked bit streams (valid frames, bursts of rejected frames, 1-2 flipped bits, random 11 bits, partial frame + clear(), clear() at a boundary, random runs) against the bit-serial model through Ps2Decoder and through Keyboard::add_bit/clear. Non-trivial = pair with exactly one of the two frames rejected; clear() with >= 1 pending bit followed by a frame; random stream containing a rejected frame followed by an accepted one or a clear() with pending bits. Exhaustive cases are distinct by construction, random ones by op-string fingerprint.".into();
     run.assumptions = vec!["Ps2Decoder is deterministic; each case starts from Ps2Decoder::new()".into()];
 
     // (a) partial states x next bit
@@ -550,6 +580,90 @@ pub fn c06(run: &mut Run) {
         ex.push(BitOp::Bit(false)); ex.push(BitOp::Clear);
         ex.extend(word_ops(frame::encode(0x1C) ^ 1, 11));
         run.sample(|| json!({"layer":"repeat-then-perturb","ops":ops_compact(&ex)}));
+    }
+
+    // (c4) deep-history families (fast pre-check Ps2Decoder vs bit model, failures re-evaluated):
+    //   G3a  X^n R^k X C(X): frame held for n in {255,256,300} repeats, k in 1..16 rejected
+    //        frames, the frame again, then each single-bit corruption of it
+    //   G3b  noisy line: 6000 frames of typing traffic with every r-th frame corrupted and every
+    //        t-th frame abandoned half-way + clear(), then probes (bad start / stop / parity)
+    {
+        use rayon::prelude::*;
+        let fast = |ops: &[BitOp]| -> bool {
+            guard(|| {
+                let mut d = Ps2Decoder::new();
+                let mut m = BitModel::new();
+                for o in ops {
+                    match o {
+                        BitOp::Clear => { d.clear(); m.clear(); }
+                        BitOp::Bit(b) => { if d.add_bit(*b) != m.add_bit(*b) { return false; } }
+                    }
+                }
+                true
+            }).unwrap_or(false)
+        };
+        let mut fam: Vec<Vec<BitOp>> = Vec::new();
+        for x in [frame::encode(0x1C), frame::encode(0xF0), frame::encode(0x00), frame::encode(0xAA)] {
+            for n in [255usize, 256, 300] {
+                let held: Vec<BitOp> = (0..n).flat_map(|_| word_ops(x, 11)).collect();
+                for r in [x ^ 0x200, 0x7FF, 0x000] {
+                    for k in 1..=16usize {
+                        for i in 0..11 {
+                            let mut v = held.clone();
+                            for _ in 0..k { v.extend(word_ops(r, 11)); }
+                            v.extend(word_ops(x, 11));
+                            v.extend(word_ops(x ^ (1 << i), 11));
+                            v.extend(word_ops(x, 11));
+                            fam.push(v);
+                        }
+                    }
+                }
+            }
+        }
+        let g3a = fam.len();
+        let traffic: Vec<u8> = vec![0x12, 0x1C, 0xF0, 0x1C, 0x1C, 0x1C, 0xE0, 0x75, 0xE0, 0xF0, 0x75, 0xF0, 0x12, 0x58, 0xF0, 0x58, 0x77, 0x77, 0xF0, 0x77];
+        for r in [0usize, 100, 33, 10, 3] {
+            for t in [0usize, 100, 33, 10] {
+                let mut v: Vec<BitOp> = Vec::new();
+                for i in 0..6000usize {
+                    let w = frame::encode(traffic[i % traffic.len()]);
+                    if t > 0 && i % t == t / 2 {
+                        v.extend(word_ops(w, 1 + i % 10));
+                        v.push(BitOp::Clear);
+                    }
+                    if r > 0 && i % r == 1 {
+                        v.extend(word_ops(w ^ (1 << (i % 11)), 11));
+                    } else {
+                        v.extend(word_ops(w, 11));
+                    }
+                    if i % 1024 == 1023 {
+                        // probes at window boundaries
+                        v.extend(word_ops(w | 1, 11));
+                        v.extend(word_ops(w, 11));
+                        v.extend(word_ops(w & !0x400, 11));
+                        v.extend(word_ops(w, 11));
+                    }
+                }
+                fam.push(v);
+            }
+        }
+        let g3b = fam.len() - g3a;
+        // G3c: U1^i U2^j with whole frames / abandoned partial frames as units, i, j up to 2200
+        for v in long_unit_grammar() {
+            fam.push(v);
+        }
+        let bad: Vec<usize> = fam.par_iter().enumerate().filter_map(|(i, v)| if fast(v) { None } else { Some(i) }).collect();
+        run.eval(fam.len() as u64);
+        run.nontrivial_enum(fam.len() as u64);
+        for i in bad.iter().take(6) {
+            c06_eval_ops(run, &fam[*i]);
+        }
+        // the Keyboard path on the noisy-line workloads (few, long)
+        for v in fam[g3a..].iter().step_by(3) {
+            c06_eval_ops(run, v);
+        }
+        run.total_violating_cases += bad.len().saturating_sub(6) as u64;
+        run.part("deep_history_families", json!({"X^n.R^k.X.C(X)": g3a, "noisy_line_workloads(6000 frames)": g3b, "U1^i.U2^j(units: frames, partial frame + clear; i,j up to 2200)": fam.len() - g3a - g3b, "failing": bad.len()}));
     }
 
     // (c') pumping: the same frame / partial frame + clear() repeated far beyond 2^16 bits
